@@ -2,6 +2,7 @@ package checks
 
 import (
 	"fmt"
+	"sort"
 	"strings"
 	"time"
 
@@ -29,7 +30,11 @@ var c12values = []struct {
 func runC12(rc *sim.RunCtx) {
 	t := rc.T
 	devKind := []string{"direct", "gnmi-proto", "gnmi-json", "gnmi-json_ietf"}[t.Weighted([]int{3, 2, 1, 2})]
-	w, err := world.New(rc, world.Opts{DisableConcurrency: t.Bool(1, 2), DevKind: devKind})
+	wk := devKind
+	if wk == "direct" {
+		wk = ""
+	}
+	w, err := world.New(rc, world.Opts{DisableConcurrency: t.Bool(1, 2), DevKind: wk, CaptureEncodings: devKind == "direct"})
 	if err != nil {
 		rc.HarnessErr("world: %v", err)
 		return
@@ -99,6 +104,61 @@ func runC12(rc *sim.RunCtx) {
 			// only if this owner rules the path
 			rc.Report(sim.Item{Prop: "C12", Clause: "C12.device-value", Step: step, Fields: f, Detail: fmt.Sprintf("device received %s, supplied datum is %s", g, want)})
 		}
+		// the NETCONF XML text and the JSON documents of the same tree (direct device: all renderings are captured)
+		if res.SetsAfter > res.SetsBefore && devKind == "direct" {
+			rec := w.Dev.Sets[res.SetsAfter-1]
+			sent := false
+			for _, u := range rec.Updates {
+				if u.Path.String() == p.String() {
+					sent = true
+				}
+			}
+			if sent {
+				combos := make([]string, 0, len(rec.XML))
+				for c := range rec.XML {
+					combos = append(combos, c)
+				}
+				sort.Strings(combos)
+				for _, c := range combos {
+					st, iss := si.ApplyXML(world.DevState{}, rec.XML[c], strings.HasPrefix(c, "ns1"), strings.Contains(c, "-op1-"), strings.HasSuffix(c, "-rem"))
+					bad := ""
+					for _, it := range iss.Items {
+						if strings.HasPrefix(it, "C10.xml-malformed") || strings.HasPrefix(it, "C10.xml-unknown-element") {
+							bad = it
+						}
+					}
+					g, ok := st[p.String()]
+					if bad != "" || !ok || !same(world.NormAbs(g.Abs)) {
+						ff := copyFields(f)
+						ff["encoding"] = "xml"
+						ff["combo"] = c
+						got := "absent"
+						if ok {
+							got = world.NormAbs(g.Abs)
+						}
+						rc.Report(sim.Item{Prop: "C12", Clause: "C12.xml-value", Step: step, Fields: ff, Detail: fmt.Sprintf("the XML text (%s) of the change denotes %s %s, supplied datum is %s\n%s", c, got, bad, want, rec.XML[c])})
+						break
+					}
+				}
+				for _, j := range []struct {
+					name string
+					v    any
+				}{{"json", rec.JSON}, {"json_ietf", rec.JSONIETF}} {
+					leaves, derr := si.DecodeJSONValue(world.Path{}, j.v)
+					got := "absent"
+					for _, l := range leaves {
+						if l.Path.String() == p.String() {
+							got = world.NormAbs(l.Abs)
+						}
+					}
+					if derr != nil || !same(got) {
+						ff := copyFields(f)
+						ff["encoding"] = j.name
+						rc.Report(sim.Item{Prop: "C12", Clause: "C12.json-value", Step: step, Fields: ff, Detail: fmt.Sprintf("the %s document of the change denotes %s (decode error: %v), supplied datum is %s: %v", j.name, got, derr, want, j.v)})
+					}
+				}
+			}
+		}
 		// intended store
 		dump, err := w.DumpIntended()
 		if err != nil {
@@ -155,7 +215,7 @@ func runC12(rc *sim.RunCtx) {
 func init() {
 	Register(&sim.Check{
 		ID: "C12", Level: "exploration", Run: runC12,
-		Rule: "per run 2-6 single-leaf transactions over the types container of vsim: one leaf per YANG built-in type (int8..int64, uint8..uint64 incl. values above 2^63, decimal64 with fraction-digits 1/2/18 incl. negative and fractional, boolean, empty, enumeration incl. a name with a space, identityref from two modules, union of uint8|enum|string, string with separators, leaf-lists of string/uint32/enum) x boundary and interior values x input form (typed value, string, JSON / JSON_IETF document at the root, JSON / JSON_IETF scalar or array on the leaf's own path). The device is the direct one (proto view of the tree) or, in half of the runs, the REAL gnmiTarget (encodings proto / json / json_ietf) in front of an in-process gNMI client that decodes the wire SetRequest. After each accepted transaction the value at the device, in the intended store, and returned by GetData in STRING/PROTO/JSON/JSON_IETF must denote the supplied datum in the harness's abstract value domain; a verbatim re-submission must send nothing. Every step is non-trivial; distinct = (leaf, value, form).",
+		Rule: "per run 2-6 single-leaf transactions over the types container of vsim: one leaf per YANG built-in type (int8..int64, uint8..uint64 incl. values above 2^63, decimal64 with fraction-digits 1/2/18 incl. negative and fractional, boolean, empty, enumeration incl. a name with a space, identityref from two modules, union of uint8|enum|string, string with separators, leaf-lists of string/uint32/enum) x boundary and interior values x input form (typed value, string, JSON / JSON_IETF document at the root, JSON / JSON_IETF scalar or array on the leaf's own path). The device is the direct one (proto view of the tree) or, in half of the runs, the REAL gnmiTarget (encodings proto / json / json_ietf) in front of an in-process gNMI client that decodes the wire SetRequest. After each accepted transaction the value at the device, the value the 8 NETCONF XML documents and the JSON / JSON_IETF documents of the same tree denote (direct device), the value in the intended store, and returned by GetData in STRING/PROTO/JSON/JSON_IETF must denote the supplied datum in the harness's abstract value domain; a verbatim re-submission must send nothing. Every step is non-trivial; distinct = (leaf, value, form).",
 		Real: append(append([]string{}, realCore...), "pkg/utils converter.go/value.go/leaf_convert.go, pkg/datastore/data_rpc.go validateUpdate"), Stub: stubCore,
 		Assume:       []string{"only the compositions the running system performs are checked (client -> datastore -> store -> device proto view -> GetData), not the cross product of pure converters; XML text from a device is not covered"},
 		QuickSeconds: 30, ThoroughSeconds: 420,
